@@ -4,8 +4,15 @@
 package c11
 
 import (
+	"context"
+	"encoding/json"
+	"fmt"
 	"strings"
 	"testing"
+	"time"
+
+	"github.com/failsafe-go/failsafe-go"
+	"github.com/failsafe-go/failsafe-go/cachepolicy"
 
 	"pgregory.net/rapid"
 
@@ -72,4 +79,106 @@ func TestRegress(t *testing.T) {
 	st := harness.NewStats("TestRegress")
 	defer st.Flush()
 	cfg.Regress(t, st, "../../regress/c11")
+}
+
+// TestCacheOverlapping: executions that overlap inside one cache policy, each with its own key (configured, supplied by
+// the context, or none). Every execution parks in the function after a miss; they are completed one by one in a generated
+// order; each result must be stored under the key of the execution that produced it, and nothing else may be written.
+func TestCacheOverlapping(t *testing.T) {
+	const test = "TestCacheOverlapping"
+	st := harness.NewStats(test)
+	defer st.Flush()
+	rapid.Check(t, func(t *rapid.T) {
+		type exec struct {
+			CtxKey string `json:"ctx_key"` // "" = none
+			Val    int    `json:"val"`
+		}
+		type scen struct {
+			CfgKey  string `json:"cfg_key"`
+			Execs   []exec `json:"execs"`
+			Release []int  `json:"release"`
+		}
+		sc := scen{CfgKey: rapid.SampledFrom([]string{"", "k0"}).Draw(t, "cfgKey")}
+		n := rapid.IntRange(2, 6).Draw(t, "execs")
+		for i := 0; i < n; i++ {
+			sc.Execs = append(sc.Execs, exec{CtxKey: rapid.SampledFrom([]string{"", "a", "b", "c", "d"}).Draw(t, "ctxKey"), Val: 100 + i})
+		}
+		sc.Release = rapid.Permutation(seqN(n)).Draw(t, "release")
+
+		cache := compose.NewMapCache()
+		cp := cachepolicy.Builder[int](cache).WithKey(sc.CfgKey).Build()
+		gates := make([]chan struct{}, n)
+		entered := make(chan int, n)
+		done := make([]chan struct{}, n)
+		results := make([]int, n)
+		for i := range sc.Execs {
+			gates[i], done[i] = make(chan struct{}), make(chan struct{})
+			i := i
+			ctx := context.Background()
+			if k := sc.Execs[i].CtxKey; k != "" {
+				ctx = context.WithValue(ctx, cachepolicy.CacheKey, k)
+			}
+			go func() {
+				defer close(done[i])
+				results[i], _ = failsafe.NewExecutor[int](cp).WithContext(ctx).Get(func() (int, error) {
+					entered <- i
+					<-gates[i]
+					return sc.Execs[i].Val, nil
+				})
+			}()
+			select { // one after the other, so that every execution misses the still empty cache and parks
+			case <-entered:
+			case <-time.After(30 * time.Second):
+				harness.Inconclusive(t, "execution %d did not reach the function", i)
+			}
+		}
+		cache.TakeOps()
+		want := map[string]int{}
+		var wantSets []compose.CacheOp
+		for _, i := range sc.Release {
+			close(gates[i])
+			<-done[i]
+			key := sc.CfgKey
+			if sc.Execs[i].CtxKey != "" {
+				key = sc.Execs[i].CtxKey
+			}
+			if key != "" {
+				want[key] = sc.Execs[i].Val
+				wantSets = append(wantSets, compose.CacheOp{Op: "set", Key: key, Val: sc.Execs[i].Val})
+			}
+			if results[i] != sc.Execs[i].Val {
+				harness.Violation(t, "C11", test, "overlap-result", sc, "%+v: execution %d returned %d, its function returned %d", sc, i, results[i], sc.Execs[i].Val)
+			}
+		}
+		ops := cache.TakeOps()
+		var sets []compose.CacheOp
+		for _, o := range ops {
+			if o.Op == "set" {
+				sets = append(sets, compose.CacheOp{Op: "set", Key: o.Key, Val: o.Val})
+			}
+		}
+		if fmt.Sprint(sets) != fmt.Sprint(wantSets) {
+			harness.Violation(t, "C11", test, "overlap-store", sc, "%+v: cache writes %v, expected %v (each result under the key of the execution that produced it)", sc, sets, wantSets)
+		}
+		if got := cache.Content(); fmt.Sprint(got) != fmt.Sprint(want) {
+			harness.Violation(t, "C11", test, "overlap-store", sc, "%+v: cache content %v, expected %v", sc, got, want)
+		}
+		distinct := map[string]bool{}
+		for _, e := range sc.Execs {
+			distinct[e.CtxKey] = true
+		}
+		b, _ := json.Marshal(sc)
+		st.Case(string(b), len(distinct) >= 2, fmt.Sprintf("distinct-keys=%d", len(distinct)))
+		if len(distinct) >= 2 {
+			st.Sample(string(b), func() any { return sc })
+		}
+	})
+}
+
+func seqN(n int) []int {
+	s := make([]int, n)
+	for i := range s {
+		s[i] = i
+	}
+	return s
 }
